@@ -9,7 +9,8 @@ SPEC = dict(
     exhaustive=True,
     rule="cell = entry (stream: QXmppOutgoingClient::handlePacketReceived | decrypted: QXmppClient::injectIq) x type "
          "{get,set,result,error,absent,garbage} x from {none,domain,own bare,own full,own other resource,other} x id "
-         "{absent,fresh,id of an outstanding sendIq request,id of an outstanding registration request} x payload (catalogue "
+         "{absent,fresh,id of an outstanding sendIq request,id of an outstanding registration request,id of an outstanding "
+         "setBookmarks request} x payload (catalogue "
          "of ~300 (quick) / ~380 (thorough) child lists: for each of 28 (tag,ns) keys handled by a bundled manager the "
          "well-formed element, the bare element, malformed content, detail variants (with/without `with`, method a.b / "
          "ab / a.b.c, own/foreign disco node, bookmarks / other private storage), after/before an unknown sibling, wrong "
@@ -19,8 +20,9 @@ SPEC = dict(
          "the id and entry dimensions are complete for payloads the configuration's managers look at (and everywhere in the "
          "thorough tier), seeded otherwise; attribute spellings (absent vs empty, 8 garbage types, look-alike JIDs, ids "
          "needing XML escaping) are seeded. Configurations: no extension; each of 31 bundled managers alone (blocking also "
-         "subscribed); the default set; all managers together in 3 (quick) / 7 (thorough) registration orders; 12 / 60 random "
-         "small sets. A fresh client per cell. Each line compares who decided (measured with probe extensions between the "
+         "subscribed); the default set; the default set and two bookmark sets over a really connected loopback socket; all "
+         "managers together in 3 (quick) / 7 (thorough) registration orders; 12 / 60 random small sets. A fresh client per cell "
+         "(every 50 cells in the quick all-managers runs). Each line compares who decided (measured with probe extensions between the "
          "managers), number of IQ replies, their kind / to / id, other traffic, and the stream error, between the real "
          "client and the Lean model; a configuration is non-trivial when it yields >= 2 distinct observations.",
     trusted_base=[
@@ -35,9 +37,9 @@ SPEC = dict(
     ],
     assumptions=[
         "managers are in their initial state apart from the modelled ones (blocklist subscribed, outstanding registration id, "
-        "outstanding sendIq request): no transfer jobs, no joined MUC rooms (the MUC row is proved good with and without), no "
+        "outstanding sendIq request, outstanding setBookmarks request): no transfer jobs, no joined MUC rooms (the MUC row is proved good with and without), no "
         "RPC interface registered, nobody connected to QXmppTransferManager::fileReceived (with a listener the reply to an "
-        "accepted SI offer is deferred to the application), no QXmppBookmarkManager::setBookmarks request outstanding",
+        "accepted SI offer is deferred to the application)",
         "QXmppCallManager (WITH_GSTREAMER=OFF) and QXmppOmemoManager (BUILD_OMEMO=OFF) are not part of the built library: not "
         "modelled, not measured",
         "replies are observed as SentMessage log records of the client's socket; delivery by the server is outside the model",
@@ -47,8 +49,9 @@ SPEC = dict(
     level_text="Theorems: lifting lemma for every extension list (request_answered_once, response_never_answered); exact row "
                "table for all 32 model rows and every stanza with any number of children (row_good_iff_not_defect); C08 at full "
                "strength for every set of the managers without defect cells; C08 for every set of bundled managers outside the "
-               "listed defect cells (partial); every defect cell is a violation (C08_fails_at_every_defect_cell) with 35 "
-               "concrete witnesses reproduced on the real client; generated handler-site and default-set tables equal the "
+               "listed defect cells (partial); every defect cell is a violation (C08_fails_at_every_defect_cell) with 37 "
+               "concrete witnesses reproduced on the real client; the full statement holds for the handlers as patched by "
+               "fixes/C08-*.diff (C08_holds_after_fixes; driver argument `fixed`); generated handler-site and default-set tables equal the "
                "model's. Model tied to the real client by an exhaustive cell-by-cell correspondence.",
     level_note="Proved about the hand-written model; model-to-code tie is differential over the enumerated cell space "
                "(exhaustive in type x from x payload catalogue, seeded in spellings). The full statement is FALSE on today's "
